@@ -1,1 +1,64 @@
-Require Import Gengo.Base.Str Gengo.Model.RawNamer.
+(* C02 — raw names plus tracked imports denote exactly the type they were made from (partial:
+   [spell] is the reference Go spelling of a type expression under a qualifier function; that this
+   text, parsed by Go in a file with the emitted import block, denotes the identical type is
+   decided on every run by the harness' go/types re-type-check oracle, not by a theorem). *)
+Require Import Gengo.Base.Str Gengo.Model.GType Gengo.Model.Tracker Gengo.Model.Tags Gengo.Model.RawNamer
+               Gengo.Proofs.TrackerProofs Gengo.Proofs.RawNamerProofs.
+
+(* with an import tracker: the rendering is the reference spelling in which every foreign named
+   type -- at any depth -- is qualified by the alias that the FINAL tracker (the one ImportLines is
+   taken from) binds to its package, local types are bare; and the tracker's evolution is
+   AddType on the visited packages in order *)
+Theorem C02_rendering_uses_reported_aliases : forall v2 outpkg t ty st' n,
+  raw_name v2 outpkg (Some t) ty = Some (st', n) ->
+  exists t', st' = Some t' /\ run is_letter_x is_digit_x itoa_dec t (pkgs ty) = Some t' /\
+             (localpkg t = outpkg -> (forall p, In p (pkgs ty) -> p <> []) -> n = spell v2 (qual outpkg t') ty).
+Proof. exact raw_with_tracker. Qed.
+Print Assumptions C02_rendering_uses_reported_aliases.
+
+(* rendering never needs an import the tracker did not report, never reports the output package,
+   reports nothing that was not mentioned, and leaves the tracker within the C07 invariant
+   (distinct, legal, non-keyword aliases; mutually inverse lookups) *)
+Theorem C02_imports_exact : forall v2 outpkg t ty t' n,
+  raw_name v2 outpkg (Some t) ty = Some (Some t', n) -> localpkg t = outpkg ->
+  (forall p, In p (pkgs ty) -> p <> []) -> Inv is_letter_x is_digit_x t ->
+  covered outpkg t' (pkgs ty) /\
+  Inv is_letter_x is_digit_x t' /\
+  ~ In outpkg (keys (p2n t')) /\
+  (forall q, lookup q (p2n t') <> None -> In q (pkgs ty) \/ lookup q (p2n t) <> None).
+Proof. exact raw_imports_exact. Qed.
+Print Assumptions C02_imports_exact.
+
+(* rendering never fails, whatever the type and tracker state *)
+Theorem C02_total : forall v2 outpkg t ty, raw_name v2 outpkg (Some t) ty <> None.
+Proof. exact raw_total. Qed.
+Print Assumptions C02_total.
+
+(* without a tracker: same spelling, qualifier = last element of the package path *)
+Theorem C02_without_tracker : forall v2 outpkg ty,
+  raw_name v2 outpkg None ty = Some (None, spell v2 (qual_base outpkg) ty).
+Proof. exact raw_without_tracker. Qed.
+Print Assumptions C02_without_tracker.
+
+Theorem C02_local_unqualified : forall v2 outpkg t n, spell v2 (qual outpkg t) (GNamed outpkg n) = n.
+Proof. exact spell_named_local. Qed.
+Print Assumptions C02_local_unqualified.
+
+Theorem C02_foreign_qualified : forall v2 outpkg t p n, p <> outpkg ->
+  spell v2 (qual outpkg t) (GNamed p n) = local_name_of t p ++ [46%N] ++ n.
+Proof. exact spell_named_foreign. Qed.
+Print Assumptions C02_foreign_qualified.
+
+(* the same alias for a package wherever it occurs in a type: two trackers that agree on the
+   packages of a type spell it alike (so memoised names stay right while the tracker grows) *)
+Theorem C02_spelling_stable : forall v2 outpkg t t', sub t t' -> forall ty,
+  covered outpkg t (pkgs ty) -> spell v2 (qual outpkg t) ty = spell v2 (qual outpkg t') ty.
+Proof. exact spell_stable. Qed.
+Print Assumptions C02_spelling_stable.
+
+Example C02_example :
+  let ty := GMap (GNamed (s "a/x") (s "K")) (GSlice (GPointer (GNamed (s "b/x") (s "V")))) in
+  match raw_name false (s "out/p") (Some (init false (s "out/p"))) ty with
+  | Some (Some t', n) => n = s "map[x.K][]*bx.V" /\ import_lines t' = [s "x ""a/x"""; s "bx ""b/x"""]
+  | _ => False end.
+Proof. vm_compute. split; reflexivity. Qed.
